@@ -42,9 +42,12 @@ def name2unicode(name: str) -> str:
         return glyphname2unicode[name]
 
     elif name.startswith("uni"):
-        name_without_uni = name.strip("uni")
+        name_without_uni = name[len("uni") :]
 
-        if HEXADECIMAL.match(name_without_uni) and len(name_without_uni) % 4 == 0:
+        if (
+            HEXADECIMAL.fullmatch(name_without_uni)
+            and len(name_without_uni) % 4 == 0
+        ):
             unicode_digits = [
                 int(name_without_uni[i : i + 4], base=16)
                 for i in range(0, len(name_without_uni), 4)
@@ -55,9 +58,9 @@ def name2unicode(name: str) -> str:
             return "".join(characters)
 
     elif name.startswith("u"):
-        name_without_u = name.strip("u")
+        name_without_u = name[len("u") :]
 
-        if HEXADECIMAL.match(name_without_u) and 4 <= len(name_without_u) <= 6:
+        if HEXADECIMAL.fullmatch(name_without_u) and 4 <= len(name_without_u) <= 6:
             unicode_digit = int(name_without_u, base=16)
             raise_key_error_for_invalid_unicode(unicode_digit)
             return chr(unicode_digit)
@@ -78,6 +81,11 @@ def raise_key_error_for_invalid_unicode(unicode_digit: int) -> None:
         raise PDFKeyError(
             "Unicode digit %d is invalid because "
             "it is in the range D800 through DFFF" % unicode_digit,
+        )
+    if unicode_digit > 0x10FFFF:
+        raise PDFKeyError(
+            "Unicode digit %d is invalid because "
+            "it is beyond the last code point 10FFFF" % unicode_digit,
         )
 
 
